@@ -38,8 +38,10 @@ RULE = (
     "eliot:serialization_failure naming the token is delivered, both in the context current at that moment (or two "
     "stand-alone tasks when there is none), and the call returns. Facets concurrent(-enum): 2-3 threads log typed "
     "messages, some with failing serializers, through the shared default Logger under line-level schedules (generated "
-    "plans and every single preemption): every failing message gets its own traceback + serialization_failure, every "
-    "healthy one is delivered once. Non-trivial: a non-idempotent serializer on a value with "
+    "plans and every single preemption), either each with its own type or all through one freshly defined type whose first "
+    "uses race (then eliot/_validation.py is scheduled too): every failing message gets its own traceback + "
+    "serialization_failure, every healthy one is delivered once with every field serialized exactly once. The typed facet "
+    "also registers exception extractors (returning fields such as code/reason/detail) for the classes failing serializers raise. Non-trivial: a non-idempotent serializer on a value with "
     "f(f(v)) != f(v), or a fault on a start/end message. Distinct = canonical JSON of the case."
 )
 ASSUMPTIONS = [
@@ -318,6 +320,12 @@ def check(case):
     if globals_:
         fresh.addGlobalFields(**globals_)
     sc = Scenario(case)
+    from eliot import _errors as eliot_errors
+
+    saved_registry = dict(eliot_errors._error_extraction.registry)
+    for idx, names in (case.get("extractors") or {}).items():
+        # a registered extractor for the exception class a failing serializer raises
+        eliot_errors._error_extraction.registry[FAULTS[int(idx) % len(FAULTS)]] = lambda e, names=names: dict((n, "x:" + n) for n in names)
     try:
         items = case["items"]
         for _ in range(case.get("outer", 0)):
@@ -325,6 +333,8 @@ def check(case):
         contextvars.copy_context().run(sc.run_items, items)
     finally:
         Logger._destinations = saved
+        eliot_errors._error_extraction.registry.clear()
+        eliot_errors._error_extraction.registry.update(saved_registry)
     msgs = d1.messages
     require(
         [canon(_strip(m)) for m in msgs] == [canon(_strip(m)) for m in d2.messages],
@@ -452,6 +462,8 @@ def classify(case, info):
         labels.append("non-idempotent-serializer-hit")
     if case.get("globals"):
         labels.append("global-fields")
+    if case.get("extractors") and info["faults"]:
+        labels.append("extractor-registered-for-serializer-exception")
     kinds = set()
     _kinds(case["items"], kinds)
     labels.extend(sorted("op:" + k for k in kinds))
@@ -518,9 +530,13 @@ def items(depth):
 
 def strategy():
     return st.builds(
-        lambda outer, globals_, its: {"outer": outer, "globals": globals_, "items": its},
+        lambda outer, globals_, extractors, its: {"outer": outer, "globals": globals_, "extractors": extractors, "items": its},
         st.integers(0, 2),
         st.lists(st.integers(0, 5), max_size=2),
+        st.one_of(
+            st.just({}),
+            st.dictionaries(st.sampled_from([str(i) for i in range(len(FAULTS))]), st.lists(st.sampled_from(["code", "reason", "detail", "tok"]), max_size=3, unique=True), max_size=3),
+        ),
         st.lists(items(2), min_size=1, max_size=4),
     )
 
@@ -541,11 +557,30 @@ def check_concurrent(case):
     rec = Recorder()
     fresh.add(rec)
     plans_ = case["plan"]
+    shared = bool(case.get("shared"))
+    calls = {}
+
+    def shared_ser(v):
+        # value-driven: [k, fails, token]
+        calls[v[2]] = calls.get(v[2], 0) + 1
+        if v[1]:
+            raise SerFault("serializer fails")
+        return [v[0]]
+
+    def tok_ser(v):
+        calls["tok:" + v] = calls.get("tok:" + v, 0) + 1
+        return v
+
+    # one type definition used by all threads for the first time concurrently
+    shared_type = MessageType("c13:conc", [Field("v", shared_ser, ""), Field("w", lambda v: [v], ""), Field("tok", tok_ser, "")], "")
     try:
         def worker(tid, specs):
             def run():
                 for k, fails in enumerate(specs):
                     token = "T%dK%dZ" % (tid, k)
+                    if shared:
+                        shared_type.log(v=[k, fails, token], w=k, tok=token)
+                        continue
 
                     def ser(v, fails=fails):
                         if fails:
@@ -557,7 +592,7 @@ def check_concurrent(case):
 
             return run
 
-        s = sched.Scheduler(("eliot/_output.py",), plans_)
+        s = sched.Scheduler(("eliot/_output.py", "eliot/_validation.py") if shared else ("eliot/_output.py",), plans_)
         s.run([worker(i, specs) for i, specs in enumerate(case["threads"])])
     finally:
         Logger._destinations = saved
@@ -577,11 +612,18 @@ def check_concurrent(case):
                 require(not mine, "faulty-message-delivered", "message %s delivered although its serializer failed" % token)
                 require(len(reports) == 1, "failure-report-count", lambda: "%d eliot:serialization_failure messages for %s (all messages: %r)" % (len(reports), token, [m.get("message_type") for m in msgs]))
             else:
-                require(len(mine) == 1 and mine[0]["v"] == [k], "delivery", lambda: "message %s delivered %d times / wrong value" % (token, len(mine)))
+                require(len(mine) == 1 and mine[0]["v"] == [k], "delivery", lambda: "message %s delivered %d times / wrong value: %r" % (token, len(mine), mine))
                 require(not reports, "spurious-failure-report", "report for healthy message %s" % token)
+                if shared:
+                    require(mine[0].get("w") == [k], "delivery", lambda: "message %s: field w delivered as %r, serializer output is %r" % (token, mine[0].get("w"), [k]))
+                    require(
+                        calls.get(token) == 1 and calls.get("tok:" + token) == 1,
+                        "serializer-call-count",
+                        lambda: "message %s: serializers called %r/%r times" % (token, calls.get(token), calls.get("tok:" + token)),
+                    )
     tbs = [m for m in msgs if m.get("message_type") == "eliot:traceback"]
     require(len(tbs) == faults, "traceback-count", lambda: "%d serializer failures but %d eliot:traceback messages" % (faults, len(tbs)))
-    inside = s.switched_inside(("write", "send"))
+    inside = s.switched_inside(("write", "send", "serialize", "log", "_compile"))
     return {"faults": faults, "switch_inside": len(inside), "switches": len(s.switches)}
 
 
@@ -589,14 +631,17 @@ def classify_concurrent(case, info):
     labels = ["threads=%d" % len(case["threads"]), "faults=%d" % min(info["faults"], 4), "switches=%d" % min(info["switches"], 6)]
     if info["switch_inside"]:
         labels.append("preempted-inside-write")
-    return info["faults"] >= 2 and info["switch_inside"] >= 1, labels
+    if case.get("shared"):
+        labels.append("one-type-shared-by-threads")
+    return (info["faults"] >= 2 or bool(case.get("shared"))) and info["switch_inside"] >= 1, labels
 
 
 def concurrent_strategy():
     from .. import sched
 
     return st.builds(
-        lambda plan, threads: {"plan": plan, "threads": threads},
+        lambda shared, plan, threads: {"shared": shared, "plan": plan, "threads": threads},
+        st.booleans(),
         sched.plans(max_segments=10, max_steps=40, workers=3),
         st.lists(st.lists(st.booleans(), min_size=1, max_size=2), min_size=2, max_size=3),
     )
@@ -610,6 +655,9 @@ def concurrent_enum_runner(mod, facet, tier, seed, shard, nshards, stats):
     for threads in ([[True], [True]], [[True], [False, True]]):
         for plan in sched.single_preemption_plans(2, 90):
             cases.append({"plan": plan, "threads": threads})
+    for threads in ([[False], [False]], [[False, True], [False]]):
+        for plan in sched.single_preemption_plans(2, 70):
+            cases.append({"shared": True, "plan": plan, "threads": threads})
     stats.extra["enumerated_plans"] = len(cases)
     enumerate_cases(mod, facet, cases, shard, nshards, stats, exhaustive=True)
 
